@@ -160,6 +160,8 @@ class Live(JupyterMixin, RenderHook):
                 try:
                     if self.auto_refresh and self._refresh_thread is not None:
                         self._refresh_thread.stop()
+                    # a partial line still pending in the redirected streams is printed above the last frame
+                    self._flush_redirect_io()
                     # allow it to fully render on the last even if overflow
                     self.vertical_overflow = "visible"
                     if not self.console.is_jupyter:
@@ -257,6 +259,12 @@ class Live(JupyterMixin, RenderHook):
         ):  # if it is finished allow files or dumb-terminals to see final result
             with self.console:
                 self.console.print(Control(""))
+
+    def _flush_redirect_io(self):
+        """Print what is pending in the redirected stdout / stderr."""
+        for stream in (sys.stdout, sys.stderr):
+            if isinstance(stream, FileProxy):
+                stream.flush()
 
     def _disable_redirect_io(self):
         """Disable redirecting of stdout / stderr."""
